@@ -20,6 +20,7 @@ process and as a real process) while
   adversary (vmon.hostile) drives the samplers into those branches.
 """
 import collections
+import itertools
 import contextlib
 import math
 import os
@@ -915,6 +916,139 @@ def case_options(ctx, gtype, base, optsets, nseeds):
     flush_counts(ctx)
 
 
+# ----------------------------------------------------------------- the same numbers, spelled differently
+def respell(r, tok):
+    """Another decimal spelling of the same integer ('7' -> '07', '+7'; '0' -> '-0', '00'); other tokens unchanged."""
+    if not re.match(r"[0-9]+$", tok):
+        return tok
+    if tok == "0":
+        return r.choice(["0", "-0", "+0", "00"])
+    return r.choice([tok, "0" + tok, "+" + tok, "00" + tok, "+0" + tok])
+
+
+def case_respell(ctx, gtype, cons, arglists, nseeds):
+    """A specification means its numbers, not their spelling: with the integers written as 07 / +7 / -0 the outcome under
+    the same random choices is the same graph, and a request that is refused in plain spelling is refused in any
+    spelling.  (A stricter parser that rejects the unusual spelling of an acceptable request is tolerated.)"""
+    r = ctx.rng("c15-respell", gtype, cons)
+    for args in arglists:
+        plain = [cons] + list(args)
+        for _ in range(nseeds):
+            other = [cons] + [respell(r, t) for t in args]
+            if other == plain:
+                continue
+            rnd = ("fair", 0, r.randrange(1 << 30))
+            st1, val1, _ = build(ctx, gtype, plain, rnd)
+            st2, val2, _ = build(ctx, gtype, other, rnd)
+            ctx.count("respelled_pairs")
+            lab = "%s vs %s" % (label_of(gtype, plain, rnd), " ".join(other))
+            if st2 == "exc" and not isinstance(val2, ValueError):
+                ctx.violation("%s:respelled:raises:%s" % (cons, type(val2).__name__), "%s: the second ended in %r" % (lab, val2))
+            elif st1 == "exc" and isinstance(val1, ValueError) and st2 == "ok":
+                ctx.violation("%s:respelled:accepts-what-it-refuses-in-plain-spelling" % cons,
+                              "%s: the first is refused (%s), the second returns a graph" % (lab, str(val1)[:120]))
+            elif st1 == "ok" and st2 == "ok":
+                try:
+                    g1, g2 = snapshot(gtype, val1), snapshot(gtype, val2)
+                except Unreadable:
+                    continue
+                if g1 != g2:
+                    ctx.violation("%s:respelled:another-graph" % cons, "%s: %s vs %s" % (lab, show(g1), show(g2)))
+            elif st1 == "ok":
+                ctx.count("respelled_refused_by_stricter_parser")
+            ctx.judged(("respell", gtype, tuple(other)) + rnd, nontrivial=st1 == "ok" or st2 == "ok",
+                       sample={"plain": " ".join(plain), "respelled": " ".join(other), "outcomes": [st1, st2]})
+    flush_counts(ctx)
+
+
+# ----------------------------------------------------------------- graphs read from files, then modified
+ODD_FILE_NAMES = ["plain", "net{v2}", "K{}", "B{left}", "{0}", "}{", "{", "a{0!r}b", "{{x}}", "100%", "a%sb", "%(x)s", "two words", "caf\u00e9",
+                  "$(x)", "semi;colon", "it's", 'q"uote', "back\\slash", "star*", "tilde~", "hash#1", "c", "p edge", "+ 3 random edges"]
+
+
+def case_file_base(ctx, gtype, nseeds):
+    """A graph given as a file (whose path may contain characters that mean something to string formatting, shells or
+    the formats themselves), followed by each option: the option acts on the graph in the file."""
+    import cnfgen.graphs as cg
+    r = ctx.rng("c15-filebase", gtype)
+    tmp = tempfile.mkdtemp(prefix="vmon-c15-")
+    try:
+        for k, stem in enumerate(ODD_FILE_NAMES):
+            fmt = ("kthlist", "gml")[k % 2] if gtype != "bipartite" else ("kthlist", "matrix", "gml")[k % 3]
+            if gtype == "simple":
+                n = r.randint(4, 7)
+                E = {frozenset(p) for p in itertools.combinations(range(1, n + 1), 2) if r.random() < 0.4}
+                G = cg.Graph(n)
+                for e in E:
+                    G.add_edge(*sorted(e))
+                want = ("simple", n, frozenset(E))
+                optlist = [["plantclique", [str(r.randint(0, 3))]], ["addedges", [str(r.randint(0, 2))]],
+                           ["splitedges", [str(min(len(E), r.randint(0, 2)))]]]
+            elif gtype == "bipartite":
+                L, R = r.randint(2, 4), r.randint(2, 5)
+                E = {(u, v) for u in range(1, L + 1) for v in range(1, R + 1) if r.random() < 0.4}
+                G = cg.BipartiteGraph(L, R)
+                for e in sorted(E):
+                    G.add_edge(*e)
+                want = ("bipartite", (L, R), frozenset(E))
+                optlist = [["plantbiclique", [str(r.randint(0, 2)), str(r.randint(0, 2))]], ["addedges", [str(r.randint(0, 2))]]]
+            else:
+                n = r.randint(3, 6)
+                E = {(u, v) for u in range(1, n + 1) for v in range(u + 1, n + 1) if r.random() < 0.4}
+                G = cg.DirectedGraph(n)
+                for e in sorted(E):
+                    G.add_edge(*e)
+                want = ("dag", n, frozenset(E))
+                optlist = []
+            path = os.path.join(tmp, "%s.%s" % (stem, fmt))
+            try:
+                cg.writeGraph(G, path, gtype if gtype != "dag" else "dag", fmt)
+            except Exception as e:       # noqa: BLE001 - a file the harness cannot prepare decides nothing
+                ctx.count("file_base_not_prepared")
+                continue
+            shown = "<dir>/%s.%s" % (stem, fmt)
+            for opts in [[]] + [[o] for o in optlist] + ([optlist] if len(optlist) > 1 else []):
+                for _ in range(nseeds):
+                    rnd = ("fair", 0, r.randrange(1 << 30))
+                    st, val, obs = build(ctx, gtype, [path], rnd)
+                    lab0 = "%s graph from file %s" % (gtype, shown)
+                    ctx.count("file_base_builds")
+                    if st == "exc":
+                        ctx.violation("file:%s" % ("refuses-readable-file" if isinstance(val, ValueError) else "raises:" + type(val).__name__),
+                                      "%s ended in %r" % (lab0, val))
+                        break
+                    try:
+                        prev = snapshot(gtype, val)
+                    except Unreadable as e:
+                        ctx.violation("file:result-unreadable", "%s: %s" % (lab0, e))
+                        break
+                    if prev != want:
+                        ctx.violation("file:graph-differs-from-file", "%s: got %s, the file holds %s" % (lab0, show(prev), show(want)))
+                        break
+                    toks = [path]
+                    okay = True
+                    for name, args in opts:
+                        toks = toks + [name] + list(args)
+                        oexp = expect_option(gtype, name, args, prev)
+                        st, val, obs = build(ctx, gtype, toks, rnd)
+                        lab = "%s graph from file %s" % (gtype, " ".join([shown] + toks[1:]))
+                        ctx.count("opt:" + name)
+                        ctx.count("file_base_option_stages")
+                        g = judge(ctx, lab, name, oexp, st, val, obs, gtype)
+                        ctx.judged(("file-base", gtype, stem, tuple(toks[1:])) + rnd, nontrivial=nontrivial(oexp, st),
+                                   sample={"spec": " ".join([shown] + toks[1:]), "stage": name, "before": show(prev),
+                                           "outcome": show(g) if g is not None else repr(val)[:100]})
+                        if g is None or oexp.verdict != ACCEPT:
+                            okay = False
+                            break
+                        prev = g
+                    if not opts:
+                        ctx.judged(("file-base", gtype, stem, ()) + rnd, nontrivial=True, sample={"spec": shown, "graph": show(prev)})
+    finally:
+        shutil.rmtree(tmp, ignore_errors=True)
+    flush_counts(ctx)
+
+
 # ----------------------------------------------------------------- save
 def case_save(ctx, gtype, specs, nseeds):
     from cnfgen.clitools.graph_args import formats
@@ -1365,6 +1499,14 @@ def workload(tier, seed):
         sets = option_sets("bipartite", lr, emax, tier)
         for part in chunks(sets, 3 if T else 24):
             yield "options", {"gtype": "bipartite", "base": base, "optsets": part, "nseeds": 80 if T else 2}
+    for gtype in ("simple", "bipartite", "dag"):
+        yield "file_base", {"gtype": gtype, "nseeds": 3 if T else 1}
+    for (gtype, cons), lists in family_arglists(tier).items():
+        ints_only = [a for a in lists if a and all(re.match(r"-?[0-9]+$", t) for t in a)]
+        if cons == "shift":
+            ints_only += [S(6, 7, 1, 3, 1), S(5, 5, 2, 2), S(4, 4, 0, 0), S(12, 12, 10, 3, 10), S(6, 7, 1, 3), S(3, 3, 0, 1, 2)]
+        for part in chunks(ints_only[:: (1 if T else 3)], 60):
+            yield "respell", {"gtype": gtype, "cons": cons, "arglists": part, "nseeds": 3 if T else 2}
     # ---- save
     save_specs = {
         "simple": [S("gnm", 6, 7), S("gnm", 12, 20), S("grid", 3, 4), S("complete", 11), S("empty", 3),
